@@ -196,6 +196,42 @@ fn directed(ctx: &mut Ctx) {
     }
 }
 
+/// Every ordered pair of binary operators (and the unary ones in front of either operand) in every syntactic position an
+/// expression can occupy: item k of n in a list / map (with and without the trailing comma), call argument, branch of an
+/// if, operand of a parenthesised access step. The table does not know positions, so the grouping must be the same in all.
+fn operator_pairs_in_contexts(ctx: &mut Ctx) {
+    let ops = ["or", "and", "==", "!=", "<", "<=", ">", ">=", "contains", "in", "|", "^", "&", "+", "-", "*", "/", "%", "="];
+    let contexts = [
+        "§", "( § )", "[ § ]", "[ § , ]", "[ a , § ]", "[ a , b , § ]", "[ a , b , § , ]", "[ § , a ]", "[ a , § , b ]", "[ a , b , c , § ]",
+        "{ k : § }", "{ k : § , }", "{ k : a , m : § }", "{ k : a , m : § , }", "{ k : a , m : b , n : § }", "{ k : a , m : b , n : § , }", "{ k : § , m : a , n : b }", "{ k : a , m : § , n : b }",
+        "{ k : a , m : b , n : c , o : § }", "{ k : a , m : b , n : c , o : d , p : § }", "g ( § )", "g ( a , § )", "g ( a , b , § )", "g ( § , a )", "int ( § )", "some ( § )", "none ( § )", "is_none ( § )", "year ( § )",
+        "if § then a else b", "if a then § else b", "if a then b else §", "( § ) . k", "( § ) . 0", "- ( § )", "! ( § )", "[ { k : [ § ] } ]", "{ k : [ a , { m : § } ] }", "a + ( § ) * b", "g ( [ a , § ] , { k : § } )",
+    ];
+    let mut holes: Vec<String> = vec![];
+    for o1 in ops {
+        for o2 in ops {
+            holes.push(format!("x {o1} y {o2} z"));
+        }
+        holes.push(format!("- x {o1} y"));
+        holes.push(format!("x {o1} - y"));
+        holes.push(format!("! x {o1} y"));
+        holes.push(format!("x {o1} ! y"));
+        holes.push(format!("x . k {o1} y . 0"));
+    }
+    ctx.align();
+    for (ci, c) in contexts.iter().enumerate() {
+        for h in &holes {
+            if !ctx.mine() {
+                continue;
+            }
+            let text = c.replace('§', h);
+            let ntok = text.split(' ').count();
+            judge_text(ctx, &text, "operator-pair-in-position", ntok);
+            ctx.hit(&format!("position:{ci}"));
+        }
+    }
+}
+
 // ---- trees in the parser's image, rendered three ways -----------------------------------------
 
 fn leaf(k: usize) -> Expr {
@@ -375,6 +411,7 @@ fn random_tree(rng: &mut Rng, sh: &[(&'static str, usize)], depth: usize) -> Exp
 
 fn run(ctx: &mut Ctx) {
     directed(ctx);
+    operator_pairs_in_contexts(ctx);
     long_texts(ctx);
     trees(ctx);
     sequences(ctx, ctx.tier.of(4, 5));
@@ -409,6 +446,7 @@ fn finish(m: &Merged, tier: Tier) -> Finish {
     }
     f.floors.push(floor(format!("parent/child precedence-level pairs met on each side: {pairs} (missing: {})", missing.join(" ")), missing.is_empty()));
     f.floors.push(floor(format!("accepted {accepted} / rejected {rejected} enumerated sequences (floor: 1000 accepted, and some accepted at every length)"), accepted >= 1000 && (1..=4).all(|l| m.c(&format!("accepted:len{l}")) > 0)));
+    f.floors.push(floor(format!("operator pairs in syntactic positions: {} texts over {} positions", m.c("family:operator-pair-in-position"), m.prefix_count("position:")), m.c("family:operator-pair-in-position") >= 15_000 && m.prefix_count("position:") >= 40));
     f.floors.push(floor(format!("harness self-check failures: {}", m.c("selfcheck:printer-and-reference-parser-disagree")), m.c("selfcheck:printer-and-reference-parser-disagree") == 0));
     // the one ambiguity of the table (a unary operator directly in a contains/in operand position) may be
     // resolved either way, but in ONE way: a parser that follows both readings on different inputs
